@@ -14,22 +14,23 @@ theorem C09_new_to_old {A B : Schema} (E : Extends A B) (c : Ctx) (idHash t : Na
     (h : verifyTableAsRoot B c idHash t = .ok ()) : verifyTableAsRoot A c idHash t = .ok () := by
   unfold verifyTableAsRoot at h ⊢
   refine bind_mono (fun _ h => ?_) h
-  exact bind_mono (fun o h => table_mono E c 128 _ _ _ _ h) h
+  exact bind_mono (fun o h => table_mono E 128 c _ _ _ _ h) h
 
 theorem C09_new_to_old_with_size {A B : Schema} (E : Extends A B) (c : Ctx) (idHash t : Nat)
     (h : verifyTableAsRootWithSize B c idHash t = .ok ()) : verifyTableAsRootWithSize A c idHash t = .ok () := by
   unfold verifyTableAsRootWithSize at h ⊢
   refine bind_mono (fun n' h => ?_) h
-  exact bind_mono (fun o h => table_mono E _ 128 _ _ _ _ h) h
+  exact bind_mono (fun o h => table_mono E 128 _ _ _ _ _ h) h
 
 /-- … and is then safe to read with the old reader (C01 for `A`) -/
-theorem C09_old_reader_safe {A B : Schema} (E : Extends A B) {c : Ctx} {M : Nat} (P : Placed c M) (w : WF A M)
+theorem C09_old_reader_safe {A B : Schema} (E : Extends A B) {c : Ctx} {M : Nat} (hm4 : 4 ∣ M) (hmp : M ∣ 4294967296) (w : WF A M)
     (idHash t : Nat) (h : verifyTableAsRoot B c idHash t = .ok ()) :
     ∀ fuel a, a ∈ rootAcc A c fuel t → Safe c a := by
   have hA := C09_new_to_old E c idHash t h
   intro fuel a ha
   unfold verifyTableAsRoot at hA
-  obtain ⟨_, _, hA⟩ := bind_ok hA
+  obtain ⟨_, hh, hA⟩ := bind_ok hA
+  obtain ⟨P, _⟩ := verifyHeader_placed hm4 hmp hh
   obtain ⟨o, ho, hA⟩ := bind_ok hA
   obtain ⟨h04, ho2⟩ := rd32_ok ho
   have holt := r32_lt c 0
